@@ -4559,6 +4559,9 @@ void SoPlexBase<R>::getBasisInd(int* bind) const
    // class might be set to automatic
    else if(_solver.rep() == SPxSolverBase<R>::COLUMN)
    {
+      // a modification of the LP defers the setup of the basis matrix; the order of the ids is final only after it
+      const_cast<SPxSolverBase<R>&>(_solver).basis().setupMatrix();
+
       for(int i = 0; i < numRows(); ++i)
       {
          SPxId id = _solver.basis().baseId(i);
@@ -4608,6 +4611,9 @@ bool SoPlexBase<R>::getBasisMetric(R& condition, int type)
    if(!_isRealLPLoaded)
       return false;
 
+   // the basis ids read below are final only once a matrix setup deferred by an LP modification has happened
+   _solver.basis().setupMatrix();
+
    if(_solver.basis().status() == SPxBasisBase<R>::NO_PROBLEM)
    {
       return false;
@@ -4627,6 +4633,9 @@ bool SoPlexBase<R>::getEstimatedCondition(R& condition)
    if(!_isRealLPLoaded)
       return false;
 
+   // the basis ids read below are final only once a matrix setup deferred by an LP modification has happened
+   _solver.basis().setupMatrix();
+
    if(_solver.basis().status() == SPxBasisBase<R>::NO_PROBLEM)
       return false;
 
@@ -4643,6 +4652,9 @@ bool SoPlexBase<R>::getExactCondition(R& condition)
 
    if(!_isRealLPLoaded)
       return false;
+
+   // the basis ids read below are final only once a matrix setup deferred by an LP modification has happened
+   _solver.basis().setupMatrix();
 
    if(_solver.basis().status() == SPxBasisBase<R>::NO_PROBLEM)
       return false;
@@ -4667,6 +4679,9 @@ bool SoPlexBase<R>::getBasisInverseRowReal(int r, R* coef, int* inds, int* ninds
 
    if(!_isRealLPLoaded)
       return false;
+
+   // the basis ids read below are final only once a matrix setup deferred by an LP modification has happened
+   _solver.basis().setupMatrix();
 
    // we need to distinguish between column and row representation; ask the solver itself which representation it
    // has, since the REPRESENTATION parameter of this class might be set to automatic
@@ -4860,6 +4875,9 @@ bool SoPlexBase<R>::getBasisInverseColReal(int c, R* coef, int* inds, int* ninds
 
    if(!_isRealLPLoaded)
       return false;
+
+   // the basis ids read below are final only once a matrix setup deferred by an LP modification has happened
+   _solver.basis().setupMatrix();
 
    // we need to distinguish between column and row representation; ask the solver itself which representation it
    // has, since the REPRESENTATION parameter of this class might be set to automatic
@@ -5062,6 +5080,9 @@ bool SoPlexBase<R>::getBasisInverseTimesVecReal(R* rhs, R* sol, bool unscale)
    if(!_isRealLPLoaded)
       return false;
 
+   // the basis ids read below are final only once a matrix setup deferred by an LP modification has happened
+   _solver.basis().setupMatrix();
+
    // we need to distinguish between column and row representation; ask the solver itself which representation it
    // has, since the REPRESENTATION parameter of this class might be set to automatic; in the column case we can use
    // the existing factorization
@@ -5239,6 +5260,9 @@ bool SoPlexBase<R>::multBasis(R* vec, bool unscale)
    if(!_isRealLPLoaded)
       return false;
 
+   // the basis ids read below are final only once a matrix setup deferred by an LP modification has happened
+   _solver.basis().setupMatrix();
+
    if(_solver.rep() == SPxSolverBase<R>::COLUMN)
    {
       int basisdim = numRows();
@@ -5362,6 +5386,9 @@ bool SoPlexBase<R>::multBasisTranspose(R* vec, bool unscale)
 
    if(!_isRealLPLoaded)
       return false;
+
+   // the basis ids read below are final only once a matrix setup deferred by an LP modification has happened
+   _solver.basis().setupMatrix();
 
    if(_solver.rep() == SPxSolverBase<R>::COLUMN)
    {
